@@ -8,7 +8,8 @@ Op lines (strings percent-encoded; `%n` = unset):
                                                                      (only before the first call / decide)
   decide host=<str> hdr=<...>                                        (TrafficFilter.is_allowed alone)
   adv d=<ticks>                                                      (1 tick = 1/8 s)
-  call host=<str> hdr=<-|other|v:<str>|K:<str>> gw=<ok|connerr|connsub|errhdr|appexc> direct=<ok|exc>
+  call host=<str> hdr=<-|other|v:<str>|K:<str>> gw=<ok|connerr|connsub|errhdr|errhdr:<value>|errHDR:<value>|ERRHDR:<value>|appexc> direct=<ok|exc>
+       (errhdr = errhdr:2; errHDR / ERRHDR: the same header spelled X-Lunar-Error / X-LUNAR-ERROR)
   probe <str>
 -/
 open LunarVerif LunarVerif.Proto LunarVerif.C19
@@ -56,7 +57,10 @@ def parseHdr (w : String) : Option Hdr :=
 
 def parseGw (w : String) : Option GwOut :=
   if w == "ok" then some .ok else if w == "connerr" || w == "connsub" then some .connErr
-  else if w == "errhdr" then some .errHdr else if w == "appexc" then some .appExc else none
+  else if w == "errhdr" then some (.errHdr ['2'])
+  else if w.startsWith "errhdr:" || w.startsWith "errHDR:" || w.startsWith "ERRHDR:" then
+    some (.errHdr (pctDec (w.drop 7).toString).toList)
+  else if w == "appexc" then some .appExc else none
 
 def parseDir (w : String) : Option DirOut :=
   if w == "ok" then some .ok else if w == "exc" then some .exc else none
